@@ -510,6 +510,13 @@ def check_sharing(chk, rng, only=None, prefix="share"):
         kinds.append("diff-function")
         scns.append(P.render(p, name="share%d-diff-function" % k))
         recs_of[p["id"]] = ((7, 4), (8, 5), (9, 6))
+    # two feedbacks of the same type and initial value: sources without inputs that look the same but must not be shared
+    for k in range(0 if only else (8 if chk.tier == "quick" else 100)):
+        p = twin_loops_program(rng, 9700 + k, 6)
+        progs.append(p)
+        kinds.append("twin-feedback")
+        scns.append(P.render(p, name="share%d-twin-feedback" % k))
+        recs_of[p["id"]] = ((7, 5), (8, 6), (9, 3), (10, 4))
     preds, res = dfcheck.predict(progs, tag="c06share")
     chk.add_tlc(res, "sharing")
     traces = hg.run_driver("engine", scns)
@@ -571,6 +578,18 @@ def fb_program(rng, pid, horizon):
         nodes.append(P.node("count", ins=[2]))
         nodes.append(P.node("rec", ins=[len(nodes)]))
     return P.program(pid, nodes, start=rng.choice([1, 1, 2]), end=horizon + 1)
+
+
+def twin_loops_program(rng, pid, horizon):
+    """two independent accumulating loops whose feedbacks have the same type and the same initial value: each loop keeps its
+    own state (a feedback is never shared with another one that merely looks the same)"""
+    init = rng.choice([-1, 0, 0, 5])
+    nodes = [P.node("src", script=P.gen_script(rng, horizon, maxlen=4)), P.node("src", script=P.gen_script(rng, horizon, maxlen=4, values=(10, 20, 30))),
+             P.node("fb", init=init), P.node("fb", init=init), P.node("sampleu", ins=[1, 3]), P.node("sampleu", ins=[2, 4]),
+             P.node("rec", ins=[5]), P.node("rec", ins=[6]), P.node("rec", ins=[3]), P.node("rec", ins=[4])]
+    nodes[2]["bind"] = 5
+    nodes[3]["bind"] = 6
+    return P.program(pid, nodes, start=1, end=horizon + 1)
 
 
 def check_dict_feedback(chk, rng):
@@ -704,6 +723,7 @@ def check_map_feedback(chk, rng):
 def check_c08(chk, rng):
     n = 300 if chk.tier == "quick" else 4000
     progs = [fb_program(rng, i + 1, rng.choice([5, 7, 9])) for i in range(n)]
+    progs += [twin_loops_program(rng, n + 1 + i, rng.choice([5, 7])) for i in range(n // 10)]
     preds, res = dfcheck.predict(progs, tag="c08")
     chk.add_tlc(res, "feedback")
     cases = []
